@@ -401,6 +401,7 @@ __CPROVER_ensures(__CPROVER_return_value == VF_X_BREAK ==> SHOULD_STOP) /* the l
 __CPROVER_ensures(__CPROVER_return_value == VF_X_CONTINUE ==> (ON_IO && G.i_am_consumer && (!S.remoteQueueReadSubmitted_ ==> S.remoteQueue_.head_ != INACT) && ((S.localQueue_.head_ == NULL) == (S.localQueue_.tail_ == NULL)))) /* invariant re-established (the local queue is well formed; the window is re-chosen at the next cut point) */
 __CPROVER_ensures((__CPROVER_return_value == VF_X_CONTINUE && !G.rqrs_in && G.epoll_waits == 1) ==> (G.lin_count == 1 && G.lin_new == INACT && G.lin_old == NULL)) /* C14-1: the loop reaches epoll_wait only after ITS mark-inactive step found the remote queue empty */
 __CPROVER_ensures((__CPROVER_return_value == VF_X_CONTINUE && G.rqrs_in) ==> G.lin_count == 0) /* while marked inactive the loop does not touch the remote queue (it waits for the wake-up) */
+__CPROVER_ensures((__CPROVER_return_value == VF_X_CONTINUE && (G.rqrs_in || (G.lin_count == 1 && G.lin_new == INACT))) ==> G.epoll_waits == 1) /* C14: in every round in which remote producers can reach the loop only through the eventfd, the round polls epoll (zero timeout when local work is pending): remote work and a remote stop request are not starved by work that keeps rescheduling itself locally */
 /*@LOOPBODY run_impl.loop0.body*/
 
 /* ---------------- harnesses ---------------- */
